@@ -23,7 +23,7 @@ RULE = (
 ASSUMPTIONS = ["from_string/str round trip only for length <= 10; from_integer only where an integer can spell the permutation (see DESIGN §3)"]
 REQUIRED = ["calls.Perm.of_length", "calls.Perm.up_to_length", "calls.Perm.first", "calls.Perm.unrank", "calls.Perm.rank",
             "calls.Perm.to_standard", "calls.Perm.from_string", "calls.Perm.from_integer", "calls.Perm.one_based",
-            "calls.Perm.from_iterable_validated", "calls.MeshPatt.unrank", "calls.MeshPatt.rank", "calls.MeshPatt.of_length",
+            "calls.Perm.from_iterable_validated", "calls.MeshPatt.unrank", "calls.MeshPatt.rank", "calls.MeshPatt.of_length", "meshlist.lazy_prefixes", "std.mixed_types",
             "lru.evictions_forced", "std.hash_colliding_keys", "interleaved.rounds", "unrank.block_boundaries", "std.with_ties", "validated.rejected", "unrank.domain_rejected"]
 MIN_NONTRIVIAL = 1000
 CTX = None
@@ -224,7 +224,19 @@ def post_mesh_rank(args, kwargs, res, exc):
 def done_mesh_of_length(args, kwargs, items, exhausted, exc):
     k = args[1]
     patt = args[2] if len(args) > 2 else kwargs.get("patt")
+    if exc is not None:
+        CTX.ev()
+        report("meshlist", [k, list(patt) if patt is not None else None], f"MeshPatt.of_length({k}, {patt}) raised {exc!r} after {len(items)} patterns")
+        return
     if not exhausted or k > 2:
+        # a listing consumed lazily (abandoned after some items): what was yielded so far must be distinct shadings of admissible patterns
+        CTX.ev()
+        CTX.count("meshlist.lazy_prefixes")
+        got = [(tuple(m.pattern), frozenset(m.shading)) for m in items]
+        ok = len(set(got)) == len(got) and all(len(g[0]) == k and C.is_perm(g[0]) and (patt is None or g[0] == tuple(patt))
+                                                and all(0 <= x <= k and 0 <= y <= k for x, y in g[1]) for g in got)
+        if not ok:
+            report("meshlist", [k, list(patt) if patt is not None else None], f"the first {len(got)} items of MeshPatt.of_length({k}, {patt}) repeat or are not shadings of the pattern")
         return
     CTX.ev()
     got = [(tuple(m.pattern), frozenset(m.shading)) for m in items]
@@ -360,6 +372,33 @@ def chk_meshlist(ctx, k, patt):
     list(MeshPatt.of_length(k) if patt is None else MeshPatt.of_length(k, Perm(patt)))
 
 
+def chk_meshlist_lazy(ctx, k, patt, take):
+    """the enumeration is a generator: taking only the first few shadings of a long pattern must work and cost little"""
+    it = MeshPatt.of_length(k) if patt is None else MeshPatt.of_length(k, Perm(patt))
+    first = list(itertools.islice(it, take))
+    ctx.ev()
+    if len(first) != take:
+        report("meshlist", [k, patt], f"only {len(first)} of the first {take} shadings could be taken from MeshPatt.of_length({k}, {patt})")
+    del it
+
+
+def chk_std_mixed(ctx, p, shift, where, kind):
+    """a translate of a permutation with ONE interior entry replaced by a non-integer that keeps its rank (int extremes, distinct
+    values, range == length - 1): the standardisation is still the permutation"""
+    import decimal
+    import fractions
+
+    seq = [v + shift for v in p]
+    inner = [i for i, v in enumerate(p) if 0 < v < len(p) - 1]
+    if not inner:
+        return
+    i = inner[where % len(inner)]
+    delta = {"float": 0.5, "neg_float": -0.25, "fraction": fractions.Fraction(1, 3), "decimal": decimal.Decimal("0.5")}[kind]
+    seq[i] = seq[i] + delta
+    chk_std(ctx, seq)
+    ctx.count("std.mixed_types")
+
+
 def chk_lru(ctx, seed, nkeys):
     """History through the memoised standardisation: force eviction, compare before/after."""
     rng = random.Random(seed)
@@ -442,7 +481,7 @@ def chk_interleaved(ctx, seed, rounds):
 
 
 CHECKS = {"interleaved": chk_interleaved, "listing": chk_listing, "rank": chk_rank, "unrank": chk_unrank, "notation": chk_notation, "std": chk_std,
-          "validated": chk_validated, "meshrank": chk_meshrank, "meshlist": chk_meshlist, "lru": chk_lru}
+          "validated": chk_validated, "meshrank": chk_meshrank, "meshlist": chk_meshlist, "lru": chk_lru, "meshlist_lazy": chk_meshlist_lazy, "std_mixed": chk_std_mixed}
 
 
 # ---- workload --------------------------------------------------------------------------------------------------------
@@ -495,6 +534,10 @@ def run(ctx, spec):
         for _ in range(spec["rand"]):
             k = rng.randint(3, 5)
             chk_meshrank(ctx, rng.sample(range(k), k), rng.randrange(2 ** ((k + 1) ** 2)))
+        for k in (3, 4, 5, 6, 7, 8, 10):
+            chk_meshlist_lazy(ctx, k, rng.sample(range(k), k), rng.choice([1, 25, 300]))
+        chk_meshlist_lazy(ctx, 3, None, 40)
+        chk_meshlist_lazy(ctx, 4, None, 5)
     elif kind == "rand":
         for _ in range(spec["count"]):
             c = rng.random()
@@ -529,6 +572,8 @@ def run(ctx, spec):
                     lambda: (rng.randint(0, 2), rng.randint(0, 2)), lambda: rng.choice([0, 1, True, False, 1.0]),
                 ])
                 chk_std(ctx, [pool() for _ in range(n)])
+                if n >= 3:
+                    chk_std_mixed(ctx, rng.sample(range(n), n), rng.randint(-3, 3), rng.randrange(10), rng.choice(["float", "neg_float", "fraction", "decimal"]))
             else:
                 n = rng.randint(0, 7)
                 vals = rng.sample(range(n), n)
